@@ -324,8 +324,9 @@ Definition rstep (chunk : nat) (o : op) (adv : list nat) (h : heap) (r : req)
           match copy_body chunk adv1 h1 r1 with
           | (Ok _, _, h2, rnew) =>
               (* the wrapper cache of the copied environ is the SAME object as the original's;
-                 it is stale for both (the original is seekable now) *)
-              (ONew true, h2, r1, Some rnew)
+                 it is stale for both (the original is seekable now).  copy_body read the shared
+                 input: the original's is rewound afterwards (repaired: fixes/C10-3) *)
+              (ONew true, upd h2 (inp r1) (fseek0 (cells h2 (inp r1))), r1, Some rnew)
           | (Disc, _, h2, _) => (ODisc, h2, r1, None)
           | (Fuel, _, h2, _) => (OFuel, h2, r1, None)
           end
